@@ -12,9 +12,12 @@ sys.path.insert(0, os.path.join(VERIF, 'selftest'))
 import seeded as S
 
 
+PROPS = [p for p in os.environ.get('SELFTEST_PROPS', '').split(',') if p] or S.ALL   # SELFTEST_PROPS=C17,C18: only those checks (merged)
+
+
 def one(path):
     try:
-        r = S.run(path, S.ALL)
+        r = S.run(path, PROPS)
     except SystemExit as e:
         return path, {'error': str(e)}
     return path, r
@@ -31,7 +34,13 @@ def main():
     with ThreadPoolExecutor(max_workers=3) as ex:
         for path, r in ex.map(one, items):
             name = os.path.basename(path).replace('.diff', '')
-            results[name] = {p: {'exit': v['exit'], 'lines': v['lines'][:3]} for p, v in r.items()} if 'error' not in r else r
+            if 'error' in r:
+                results[name] = r
+            else:
+                if PROPS is not S.ALL and isinstance(results.get(name), dict) and 'error' not in results[name]:
+                    results[name].update({p: {'exit': v['exit'], 'lines': v['lines'][:3]} for p, v in r.items()})
+                else:
+                    results[name] = {p: {'exit': v['exit'], 'lines': v['lines'][:3]} for p, v in r.items()}
             json.dump(results, open(resp, 'w'), indent=1)
             print(name, 'caught by', [p for p, v in r.items() if isinstance(v, dict) and v.get('exit') == 1], flush=True)
     write_md(results)
